@@ -586,7 +586,7 @@ def finding_of(case, impl, why, model=None):
 # ----------------------------------------------------------------------------- generator
 
 NAMES = ["a", "b", "c", "d", "e", "f", "g", "run1", "run10", "run", "x y", "c:d", "b\\k", "k\\040z", "été",
-         "日本", ".hidden", "a.b", ".keep", "-", "f#1", "out", "m", "sub", "o", "h2", "z\tz", "0:3:x"]
+         "日本", ".hidden", "a.b", ".keep", "-", "f#1", "out", "m", "sub", "o", "h2", "z\tz", "0:3:x", "p\\101.csv", "s\\\\h"]
 CTR_OUTS = ["/c17ctr/out", "/c17o", "/c17ctr/a b/out"]
 
 
@@ -675,7 +675,7 @@ class Gen:
             total = sum(b[1] for b in blocks)
             toks = []
             for _ in range(r.randint(1, 4)):
-                nm = r.choice(["f", "g", "z", "x y", "c:d", "b\\k", "é", "run1", "run10", "a.b", "sub/q"])
+                nm = r.choice(["f", "g", "z", "x y", "c:d", "b\\k", "é", "run1", "run10", "a.b", "sub/q", "q\\101", "w\\\\v"])
                 full = sn + tuple(nm.split("/"))
                 # tree consistency: no path both file and directory
                 if full in dirs or any(full[:i] in files for i in range(1, len(full))):
